@@ -253,7 +253,8 @@ def gen_e2e(rng, long):
         elif r < 0.72: steps.append([3, rng.choice([0, 1, 3, 5, 9])])
         elif r < 0.8: steps.append([4])
         elif r < 0.92: steps.append([5])
-        else: steps.append([6])
+        elif r < 0.97: steps.append([6])
+        else: steps.append([7])
     if rng.random() < 0.7:   # make sure repacking happens: forget an old snapshot, prune, restore
         steps += [[1, 0], [2, rng.randint(0, 1)], [5]]
     dmg_p = rng.choice([0, 200, 500, 1000])
@@ -326,7 +327,7 @@ def e2e_stage(ctx, impl, model, cov):
     hist = {"steps": 0, "with_fault": 0, "with_truncation": 0, "cold_rejects_unwarmed": 0, "hot_files_removed": 0,
             "cold_pack_reads": 0, "warm_up_calls": 0, "inner_calls_logged": 0, "prefixes_checked_by_inv_b": 0,
             "histories_compared_with_single_store": 0}
-    step_names = ["backup", "forget", "prune", "config", "check", "restore", "repair_index"]
+    step_names = ["backup", "forget", "prune", "config", "check", "restore", "repair_index", "check_read_data"]
     log_lines, rep_lines, parsed = [], [], []
     for line, o in zip(cases, outs):
         if not o.startswith("{"):
@@ -363,6 +364,16 @@ def e2e_stage(ctx, impl, model, cov):
             hist["step_" + nm] = hist.get("step_" + nm, 0) + 1
             if faulted and mark >= fail_at: diverged = True
             if diverged: continue
+            if nm == "check_read_data":
+                m = re.match(r"ok (clean|errors) data_read_full_fail=(\d+)/(\d+) tree_read_full_fail=(\d+)/(\d+)$", s["hc"])
+                if s["single"] != "ok clean" or not m:
+                    viol.append(("check --read-data fails on the single-store repository or gives no result", case, {"step_index": si, "step": s}, None))
+                elif m.group(1) == "errors" or int(m.group(2)) or int(m.group(4)):
+                    # the known defect: every data pack fails, no tree pack fails, nothing else is wrong
+                    sig = SIG_READ_FULL if (m.group(2) == m.group(3) and int(m.group(3)) > 0 and int(m.group(4)) == 0) else None
+                    viol.append(("check --read-data reports errors on a healthy hot/cold repository (clean on the single store): read_full(Pack) fails for %s of %s data packs and %s of %s tree packs" % (m.group(2), m.group(3), m.group(4), m.group(5)) if not sig else
+                                 "read_full(Pack) of a data pack held by the cold store fails on a healthy hot/cold repository (a single store returns it)", case, {"step_index": si, "step": s}, sig))
+                continue
             if s["hc"] != s["single"] or s["obs_hc"] != s["obs_single"]:
                 viol.append(("%s on the hot/cold repository gives a different result than on the single-store repository" % nm,
                              case, {"step_index": si, "step": s}, None))
@@ -386,7 +397,14 @@ def e2e_stage(ctx, impl, model, cov):
             # store never got; the repair copies them to cold (documented: "copies missing files from one to
             # the other part"), so `check` may then report them - not part of the property
             chk_ok = d["repair"] == "ok clean" or (faulted and d["repair"].startswith("ok errors"))
-            rep_ok = chk_ok and not d["cold_changed"] and "final=1" in full
+            # packs of an aborted command that no index names cannot be recognised as tree packs by
+            # repair_hotcold_packs (hypothesis tp = kind of repair_restores_hot); only possible after a fault
+            orphans = sorted(set(d["tp_flags"]) - set(d["tp_index"]))
+            if orphans: hist["faulted_cases_with_unindexed_tree_packs"] = hist.get("faulted_cases_with_unindexed_tree_packs", 0) + 1
+            final_ok = "final=1" in full or (faulted and orphans)
+            if not faulted and set(d["tp_flags"]) != set(d["tp_index"]):
+                mism.append((line, "tree packs by cacheable flag %s" % d["tp_flags"], "tree packs named by the index %s" % d["tp_index"]))
+            rep_ok = chk_ok and not d["cold_changed"] and final_ok
             if not rep_ok:
                 sig = SIG_REPAIR_MISMATCH if (d["truncated"] and d["cold_changed"]) else None
                 what = ("repair hotcold copies an incomplete hot file over the intact cold file" if sig else
